@@ -100,7 +100,19 @@ class C15(PropBase):
         fid, ext, data = fc_frame(a, rng.choice([0, 0, 1, 2, 8]), 0)
         budget_frames = max(1, int(br * w) // (txdl * 8))
         steps = min(400, int(nframes / budget_frames * 8) + nframes // 2 + 12)
+        # an ABORTED transmission (Overflow from the peer, or the user's stop_sending()) in the middle of the schedule, with requests still
+        # queued behind it: the bytes already sent in the current window stay accounted - the abort must not buy a fresh budget
+        abort_at = rng.randrange(steps) if rng.random() < 0.35 else None
+        abort_kind = rng.choice(['overflow', 'stop_sending'])
         for k in range(steps):
+            if k == abort_at:
+                if abort_kind == 'overflow':
+                    ofid, oext, odata = fc_frame(a, 0, 0, status=2)
+                    ops.append({'op': 'frame', 'i': 0, 'id': ofid, 'ext': oext, 'data': odata})
+                    ops.append({'op': 'process', 'i': 0})
+                else:
+                    ops.append({'op': 'stop_sending', 'i': 0})
+                    ops.append({'op': 'process', 'i': 0})
             if rng.random() < txonly:
                 ops.append({'op': 'process', 'i': 0, 'rx': False})
             else:
